@@ -186,12 +186,29 @@ def run_spec(ctx, src="e2.cxx", exe="e2", prefix_filter="", flags="", per_timeou
     vcdir = os.path.join(ctx.out, "vc_" + exe)
     subprocess.run("rm -rf %s && mkdir -p %s" % (vcdir, vcdir), shell=True)
     t0 = time.time()
-    p = subprocess.run([binp, "--emit", vcdir] + ([prefix_filter] if prefix_filter else []), capture_output=True, text=True, timeout=3600)
-    if p.returncode != 0:
-        ctx.undecided(ctx.pid + "/emit", "VC generation failed: " + (p.stderr or p.stdout)[-500:])
+    # one process per contract (path exploration and on-the-fly feasibility pruning are sequential inside a contract)
+    lst = subprocess.run([binp, "--list"], capture_output=True, text=True, timeout=600)
+    names = [n for n in lst.stdout.split("\n") if n and n.startswith(prefix_filter)]
+    if lst.returncode != 0 or not names:
+        ctx.undecided(ctx.pid + "/emit", "VC generation failed: no contract listed: " + (lst.stderr or lst.stdout)[-300:])
         return
-    ctx.notes.append("VC generation (symbolic execution of the real code) took %.1fs" % (time.time() - t0))
-    idx = json.load(open(os.path.join(vcdir, "index.json")))
+
+    def emit_one(k):
+        try:
+            q = subprocess.run([binp, "--emit", vcdir, names[k], "exact", "index.%d.json" % k], capture_output=True, text=True, timeout=3600)
+            return (q.returncode, (q.stderr or q.stdout)[-500:])
+        except subprocess.TimeoutExpired:
+            return (124, "timeout while exploring " + names[k])
+    with ThreadPoolExecutor(max_workers=min(int(os.environ.get("VERIF_JOBS", "16")), len(names))) as ex:
+        rcs = list(ex.map(emit_one, range(len(names))))
+    bad = [(names[k], r) for k, r in enumerate(rcs) if r[0] != 0]
+    if bad:
+        ctx.undecided(ctx.pid + "/emit", "VC generation failed for %s: %s" % (bad[0][0], bad[0][1][1]))
+        return
+    ctx.notes.append("VC generation (symbolic execution of the real code, one process per contract) took %.1fs" % (time.time() - t0))
+    idx = []
+    for k in range(len(names)):
+        idx += json.load(open(os.path.join(vcdir, "index.%d.json" % k)))
     tmo = per_timeout or (300 if ctx.thorough else 30)
     paths = {}
     for e in idx:
